@@ -237,7 +237,10 @@ def strace_run(hexe, mode, script, workdir):
            "-o", out, hexe, "-mode=" + mode, "-script=" + script, "-root=" + root, "-scratch=" + workdir]
     p = subprocess.run(cmd, stdout=subprocess.PIPE, stderr=subprocess.PIPE, timeout=300, env=L.env())
     if p.returncode != 0:
-        raise RuntimeError("strace/helper failed rc=%d: %s" % (p.returncode, p.stderr.decode("utf-8", "replace")[-1500:]))
+        cleanup_tree(root)
+        raise RuntimeError("strace/helper failed rc=%d%s: %s" % (
+            p.returncode, " (an operation of the script did not return within 20 s)" if p.returncode == 3 else "",
+            p.stderr.decode("utf-8", "replace")[-1500:]))
     ps = Parser(root)
     for (tid, name, args, ret, errno) in merged_calls(out):
         ps.feed(name, args, ret, errno)
